@@ -201,7 +201,7 @@ PExpr(ts0, fuel) ==
          ELSE Good(Node("unbound", <<>>, <<x.v>>), x.rest)
     [] t.ty = "FUN_REF" ->
          IF Len(r) = 0 \/ r[1].ty # "SYMBOL" \/ ~SymbolOK(r[1].tx) THEN Bad
-         ELSE IF Colons(r[1].tx) > 0 \/ ~PieceIsSymbol(r[1].tx) THEN Bad         \* the name must read back as one symbol
+         ELSE IF Colons(r[1].tx) = 0 /\ ~PieceIsSymbol(r[1].tx) THEN Bad        \* a plain name must read back as one symbol; a keyword or a qualified name is judged by SymbolOK
          ELSE Good(Node("funref", <<>>, <<Node("sym", r[1].tx, <<>>)>>), Rest(r))
     [] t.ty = "PAREN_L" -> PList(r, ")", <<>>, fuel - 1)
     [] t.ty = "BRACE_L" -> PList(r, "]", <<>>, fuel - 1)
@@ -228,12 +228,13 @@ Read(cs) ==
   PProg(ts1, <<>>, 2 * Len(cs) + 4)
 
 \* ------------------------------------------------------------- enumeration
-RECURSIVE StringsUpTo(_)
-StringsUpTo(n) == IF n = 0 THEN {<<>>} ELSE LET S == StringsUpTo(n - 1) IN S \cup {Append(s, c) : s \in {t \in S : Len(t) = n - 1}, c \in ALPHA}
-Init == str \in StringsUpTo(MAXLEN) /\ done = FALSE
+\* every string over ALPHA up to MAXLEN classes: grown one class at a time (a set of all of them would exceed TLC's
+\* bound on constructed sets beyond a million strings), each printed once with the reader's verdict
+Init == str = <<>> /\ done = FALSE
+Grow == ~done /\ Len(str) < MAXLEN /\ \E c \in ALPHA : str' = Append(str, c) /\ UNCHANGED done
 Emit == /\ ~done /\ done' = TRUE /\ UNCHANGED str
         /\ LET r == Read(str) IN PrintT(ToJson([s |-> str, ok |-> r.ok, trees |-> r.trees, toks |-> [j \in 1..Len(Lex(str)) |-> Lex(str)[j].ty]]))
-Next == Emit \/ (done /\ UNCHANGED vars)
+Next == Grow \/ Emit \/ (done /\ UNCHANGED vars)
 Spec == Init /\ [][Next]_vars
 
 \* totality / progress of the lexer: it always ends in EOF (or stops at an error), never runs out of fuel
